@@ -1249,3 +1249,53 @@ func R2KeyPresent(c *Ctx) {
 		c.R.Anchor(rule, "the DecryptBuffer call of ParseDemonRegisterRequest")
 	}
 }
+
+// R2DecoderCovers — the UTF-16 decoder can reach the last code unit of its input.
+func R2DecoderCovers(c *Ctx) {
+	const rule = "R2-decoder-covers"
+	c.R.Rule(rule, "in common.DecodeUTF16 the reads of the input slice are not all provably below its last position: a loop bound that keeps every index <= len-2 never decodes the final code unit, so every wide string sent by an agent loses its last character", 1)
+	fn := c.P.Func(PkgCommon, "DecodeUTF16")
+	if fn == nil || len(fn.Params) == 0 {
+		c.R.Anchor(rule, "common.DecodeUTF16")
+		return
+	}
+	in := fn.Params[0]
+	loads := heapLoadsOf(fn)
+	var uses []ssa.Instruction
+	allBelow := true
+	for _, b := range fn.Blocks {
+		for _, i := range b.Instrs {
+			var idx ssa.Value
+			switch u := i.(type) {
+			case *ssa.IndexAddr:
+				if u.X == ssa.Value(in) {
+					idx = u.Index
+				}
+			case *ssa.Index:
+				if u.X == ssa.Value(in) {
+					idx = u.Index
+				}
+			}
+			if idx == nil {
+				continue
+			}
+			uses = append(uses, i)
+			pr := newProver(c, loads, fn, b)
+			pr.lenFacts(in)
+			t := pr.norm(idx)
+			if !t.ok || !pr.g.prove(t.sym, lenKey(pr.canon(in)), -2-t.off) { // idx <= len-2
+				allBelow = false
+			}
+		}
+	}
+	if len(uses) == 0 {
+		c.R.Anchor(rule, "an indexed read of DecodeUTF16's input")
+		return
+	}
+	construct := "reads of the input reach its last byte"
+	if allBelow {
+		c.R.Bad(rule, FuncShort(fn), construct, c.pos(uses[0].Pos()), "every index into the input is provably at most len-2: the last byte (the high half of the final code unit) is never read and the final character is dropped")
+	} else {
+		c.R.Ok(rule, FuncShort(fn), construct, c.pos(uses[0].Pos()), "the last position is within reach of the loop bound", true)
+	}
+}
